@@ -204,10 +204,11 @@ def histories(ck, sh, mm, seqs):
         def goals(o):
             h, f = o['res']
             n = len(h['rhs'])
-            g = [('matrix incl. loads', z3.And(*[eq_term(h['Z'][i][j], f['Z'][i][j]) for i in range(n) for j in range(n)])),
-                 ('right-hand side', z3.And(*[eq_term(h['rhs'][i], f['rhs'][i]) for i in range(n)])),
-                 ('feed impedance', eq_term(h['zin'], f['zin'])),
-                 ('power', eq_term(h['power'], f['power']))]
+            g = [('matrix incl. loads: off-diagonal entries', z3.And(*[eq_term(h['Z'][i][j], f['Z'][i][j]) for i in range(n) for j in range(n) if i != j]))]
+            g += [('matrix incl. loads: diagonal entry %d' % i, eq_term(h['Z'][i][i], f['Z'][i][i])) for i in range(n)]
+            g += [('right-hand side', z3.And(*[eq_term(h['rhs'][i], f['rhs'][i]) for i in range(n)])),
+                  ('feed impedance', eq_term(h['zin'], f['zin'])),
+                  ('power', eq_term(h['power'], f['power']))]
             if f['et'] is not None and h['et'] is not None:
                 g.append(('far field', z3.And(*[eq_term(a, b) for a, b in zip(list(h['et'].reshape(-1)) + list(h['ep'].reshape(-1)),
                                                                        list(f['et'].reshape(-1)) + list(f['ep'].reshape(-1)))])))
